@@ -12,5 +12,5 @@ for id in "$@"; do
   echo "== $id rc=$rc on $(basename $patch)"
   echo "$out" | grep -E "VIOLATION|KNOWN-FINDING|HARNESS-ERROR|OK property|INCONCLUSIVE" | cut -c1-400 | head -6
 done
-rm -rf /verif/.work/*-$(echo -n "$wt" | sha1sum | cut -c1-8)
+rm -rf /verif/.work/*-$(echo -n "$wt" | sha1sum | cut -c1-8)-*
 git -C /repo worktree remove --force "$wt"
